@@ -25,14 +25,14 @@ def race_events(output, path):
             def via_otter(p):
                 fr = re.findall(r"^\s+(/\S+\.go):\d+", p, re.M)
                 # mosproxy frame on top, called from otter core
-                return len(fr) >= 2 and "/repo/internal/cache/" in fr[0] and any("maypok86/otter" in x for x in fr[1:4])
-            frames = re.findall(r"^\s+(/repo/\S+\.go:\d+)", body, re.M)
+                return len(fr) >= 2 and (vf.REPO + "/internal/cache/") in fr[0] and any("maypok86/otter" in x for x in fr[1:4])
+            frames = re.findall(r"^\s+(" + re.escape(vf.REPO) + r"/\S+\.go:\d+)", body, re.M)
             if not any("/zzverif/" not in x and "zz_verif" not in x for x in frames):
                 skipped += 1        # a race between harness goroutines only: a harness bug, not a verdict
                 continue
             top = next((x for x in frames if "/zzverif/" not in x), frames[0] if frames else "?")
             n += 1
-            f.write(json.dumps({"ev": "race", "top": top.replace("/repo/", ""), "frames": frames[:8], "seq": 0, "t": 0}) + "\n")
+            f.write(json.dumps({"ev": "race", "top": top.replace(vf.REPO + "/", ""), "frames": frames[:8], "seq": 0, "t": 0}) + "\n")
     return n, skipped
 
 
